@@ -106,7 +106,7 @@ def _cmp(got, want, tol):
     if want is None:
         return got is None
     if got is None:
-        return _mag(want) <= tol
+        return False  # a set value (0.0 and zeros included) never reads as unset
     if isinstance(want, list):
         return isinstance(got, list) and len(got) == len(want) and all(abs(g - w) <= tol for g, w in zip(got, want))
     return (not isinstance(got, list)) and abs(got - want) <= tol
@@ -194,7 +194,19 @@ PARAMS = [
     ("mgFluxGamma", "unset"),  # array parameter never set
     ("THhotChannelCladODT", "unset"),  # scalar parameter never set
     ("adjMgFlux", "vi"),  # array valued, set only in every other block
+    # falsy-but-set boundary values: 0.0 and arrays of zeros are *set* and must be mapped like any value
+    ("powerGamma", "vi"),  # scalar, 0.0 in odd blocks
+    ("lastMgFlux", "vi"),  # array, all zeros in odd blocks
+    ("mgFluxSK", "vi"),  # array, all zeros in even blocks
+    ("mgNeutronVelocity", "avg"),  # array, zeros everywhere
+    ("fluxAdj", "avg"),  # scalar, 0.0 in even blocks
+    ("pdensDecay", "const"),  # constant 0.0
+    ("fluxAdjPeak", "peak"),  # 0.0 except in block 2
 ]
+# after A -> B these are written afresh on B (a solver's new state, zeros included) before B is mapped back
+REWRITTEN = ("powerGamma", "lastMgFlux", "mgFluxSK", "mgNeutronVelocity", "fluxAdj", "pdensDecay", "fluxAdjPeak")
+# array lengths (for the stale values written on a destination before state is mapped onto it)
+ARRLEN = {"mgFlux": 3, "extSrc": 2, "mgFluxGamma": 2, "adjMgFlux": 2, "lastMgFlux": 3, "mgFluxSK": 3, "mgNeutronVelocity": 2}
 PEAKS = [3.0, 9.0, 4.0, 1.0, 7.0, 2.0, 8.0, 5.0]
 
 
@@ -213,7 +225,37 @@ def _profile(name, k, vs):
         return PEAKS[k % len(PEAKS)] + vs
     if name == "adjMgFlux":
         return [1.0 * (k + 1), 1.5 * (k + 1) + vs] if k % 2 == 0 else None
+    if name == "powerGamma":
+        return 0.0 if k % 2 else 50.0 * (k + 1) + vs
+    if name == "lastMgFlux":
+        return [0.0, 0.0, 0.0] if k % 2 else [(k + 2) * g + vs for g in (1.0, 0.5, 0.25)]
+    if name == "mgFluxSK":
+        return [0.0, 0.0, 0.0] if k % 2 == 0 else [(k + 1) * g + vs for g in (2.0, 4.0, 8.0)]
+    if name == "mgNeutronVelocity":
+        return [0.0, 0.0]
+    if name == "fluxAdj":
+        return 0.0 if k % 2 == 0 else 6.0 * k + vs
+    if name == "pdensDecay":
+        return 0.0
+    if name == "fluxAdjPeak":
+        return 6.0 + vs if k == 2 else 0.0
     return None
+
+
+def _stale(name, k):
+    """A value no mapping can produce: written on every block of a destination that already exists, so
+    that 'mapped' and 'left alone' are distinguishable."""
+    v = 7777.0 + 13.0 * k
+    return [v + g for g in range(ARRLEN[name])] if name in ARRLEN else v
+
+
+def _set_stale(a, names):
+    import numpy as np
+
+    for k, b in enumerate(a):
+        for name in names:
+            v = _stale(name, k)
+            b.p[name] = np.array(v) if isinstance(v, list) else v
 
 
 def _set_profiles(a, vs):
@@ -270,8 +312,9 @@ def _check_params(acc, tag, sfx, case, prof, got, sb, db, tol, prev=None):
         pv = prev[name] if prev else None
         g = got[name]
         if kind == "unset":
-            if any(v is not None for v in g):
-                acc.bad(tag + "-unset-param-set" + sfx, "%s was never set on the source but reads %s after mapping %s -> %s" % (name, g, sb, db), case)
+            # documented: an unset source value is skipped, the destination is left alone
+            if g != (pv if pv is not None else [None] * len(g)):
+                acc.bad(tag + "-unset-param-set" + sfx, "%s was never set on the source but reads %s after mapping %s -> %s (destination held %s)" % (name, g, sb, db, pv), case)
             continue
         if kind == "peak":
             want = M.map_peak(src, sb, db, pv)
@@ -299,7 +342,7 @@ def _check_params(acc, tag, sfx, case, prof, got, sb, db, tol, prev=None):
         for j, (w, slack, only) in enumerate(want):
             if _cmp(g[j], w, tol * ref + slack):
                 continue
-            if only and pv is not None and _cmp(g[j], pv[j], 0.0):
+            if only and g[j] == (pv[j] if pv is not None else None):
                 continue  # nothing but droppable slivers carried a value: the previous value survived
             acc.bad(tag + key + sfx, "%s: destination cell %d [%r,%r] reads %r, overlap-weighted value of source %s on %s is %r" % (name, j, db[j], db[j + 1], g[j], src, sb, w), case)
             break
@@ -420,8 +463,17 @@ def _remesh_one(acc, fac, case):
     _check_params(acc, "remesh", sfx, case, prof, bpar, sb, db, tol)
     if eps:
         acc.count("remesh_sliver_droppable" if _drop_frac(sb, db) > 0.0 else "remesh_sliver_must_be_counted" if any(0.0 < o < 1e-6 for j in range(len(db) - 1) for o in M.overlaps(sb, db[j], db[j + 1])) else "remesh_eps_no_sliver")
-    # ---- B -> A on the real (heterogeneous) source assembly
+    # ---- B -> A on the real (heterogeneous) source assembly, which holds DIFFERENT prior values of every
+    # mapped parameter: whatever B carries (zeros included) must replace them, only unset values leave them
+    _set_stale(A, [n for n, _k in PARAMS])
     apar0 = _params(A)
+    import numpy as np
+
+    for j, b in enumerate(B):  # new state computed on B itself (independent of what A -> B delivered)
+        for name in REWRITTEN:
+            v = _profile(name, j + 1, vs)
+            b.p[name] = np.array(v) if isinstance(v, list) else v
+    bpar = _params(B)
     try:
         um.UniformMeshGeometryConverter.setAssemblyStateFromOverlaps(B, A, pm, mapNumberDensities=True)
     except Exception as e:
@@ -441,8 +493,10 @@ def _remesh_one(acc, fac, case):
             break
     apar = _params(A)
     for name, kind in PARAMS:
-        if kind != "vi":
+        if kind != "vi" or name in REWRITTEN:
             continue
+        if any(w is None or only for w, _s, only in M.map_integrated(bpar[name], db, sb)):
+            continue  # a cell that received nothing keeps its prior (stale) value: no total to restore
         t0, t2 = _tot(prof[name]), _tot(apar[name])
         slack = M.total_slack(prof[name], sb, db) + M.total_slack(bpar[name], db, sb)
         if not _cmp(t2, t0, 2 * tol * max(_mag(t0), 1.0) + slack):
@@ -823,8 +877,9 @@ def _convert_roundtrip(acc, case, h1, h2, hc, scale, m, mesh):
         acc.bad("conv-raises", "convert() on core meshes %s (min %r) raised %s: %s" % ([s[3] for s in src.values()], m, type(e).__name__, str(e)[:160]), case)
         return
     db = [0.0] + list(mesh)
-    names = ["power", "mgFlux", "flux", "pdens", "fluxPeak"]
-    kinds = {"power": "vi", "mgFlux": "vi", "flux": "avg", "pdens": "const", "fluxPeak": "peak"}
+    # mapped "out" by the neutronics converter; includes the profiles with 0.0 / zeros
+    names = ["power", "mgFlux", "flux", "pdens", "fluxPeak", "lastMgFlux", "mgFluxSK", "mgNeutronVelocity", "fluxAdj", "pdensDecay", "fluxAdjPeak"]
+    kinds = dict(PARAMS)
     state = {}
     for ai, a in enumerate(conv.convReactor.core):
         nucs, sdens, smass, sb = src[a.getName()]
@@ -838,6 +893,8 @@ def _convert_roundtrip(acc, case, h1, h2, hc, scale, m, mesh):
                 prof[n].append(v)
                 b.p[n] = np.array(v) if isinstance(v, list) else v
         state[a.getName()] = prof
+    for a in r.core:  # the original core holds other (stale) values of everything that is mapped back
+        _set_stale(a, names)
     try:
         conv.applyStateToOriginal()
     except Exception as e:
@@ -1306,7 +1363,7 @@ def run(ctx):
     ctx.assumptions += [
         "total height %d units of %g cm (exactly representable scales only), 2-4 blocks per assembly, one interior mesh point moved by +-1e-9/+-1e-13; the top point is never moved (meshes span the same height)" % (B["H"], scale),
         "tolerances: 1e-12 relative rounding; an overlap thinner than 1e-10 of its source block may or may not be counted (documented threshold of getBlocksBetweenElevations) - the oracle accepts exactly that band; 1e-10 for N*h_old/h_new re-association",
-        "blocks of one assembly have equal cross-sectional area (checked as a generator precondition); positive parameter values; partially unset profiles only for a volume-integrated parameter",
+        "blocks of one assembly have equal cross-sectional area (checked as a generator precondition); parameter values positive, 0.0 / arrays of zeros (every kind) or unset; before state is mapped back the destination holds different stale values of every mapped parameter and the zero-profile parameters are written afresh on the uniform assembly; partially unset profiles only for a volume-integrated parameter",
         "generated cores: 2 fuel assemblies (+ optional control assembly), third-core hex, detailedAxialExpansion on; converter round trips only when the generated mesh keeps the assembly top",
         "average of partially covered output cells of resampleStepwise (avg=True, out-of-span) is not judged: two readings exist",
         "blueprints are parsed once per work item and a fresh assembly is constructed from them per case; every reported violation is re-evaluated from a fresh build",
